@@ -4623,6 +4623,63 @@ def _ff_compute_caps_tail(src, out):
                % (FF_REL, fn.lineno, ", ".join(tail)))
 
 
+def _ff_import_copy(src, out):
+    """the 'simple' branch of import_process_tensor: how tensors get from the file object `pt_file`
+    into the new object `pt`"""
+    fn = src.function(FF_REL, "import_process_tensor")
+    assigned = {}          # local name -> call it was assigned from
+    for n in ast.walk(fn):
+        if isinstance(n, ast.Assign) and len(n.targets) == 1 and isinstance(n.targets[0], ast.Name) \
+                and isinstance(n.value, ast.Call):
+            assigned.setdefault(n.targets[0].id, []).append(n.value)
+
+    def source_call(arg, getter):
+        """the pt_file.<getter>(...) call an argument of pt.set_*_tensor comes from"""
+        cands = [arg] if isinstance(arg, ast.Call) else assigned.get(getattr(arg, "id", None), [])
+        cands = [c for c in cands if attr_chain(c.func) == ["pt_file", getter]]
+        return cands[0] if len(cands) == 1 else None
+
+    sets = [n for n in ast.walk(fn) if isinstance(n, ast.Call) and
+            attr_chain(n.func) == ["pt", "set_mpo_tensor"]]
+    if len(sets) != 1 or len(sets[0].args) != 2 or sets[0].keywords:
+        raise Untranslatable("import_process_tensor: expected one pt.set_mpo_tensor(step, tensor)")
+    g = source_call(sets[0].args[1], "get_mpo_tensor")
+    if g is None:
+        raise Untranslatable("import_process_tensor: the MPO tensor does not come from "
+                             "pt_file.get_mpo_tensor(...)")
+    if ast.unparse(g.args[0] if g.args else None) != ast.unparse(sets[0].args[0]):
+        raise Untranslatable("import_process_tensor: MPO tensors copied to a different step")
+    tr = None
+    if len(g.args) >= 2:
+        tr = g.args[1]
+    for k in g.keywords:
+        if k.arg == "transformed":
+            tr = k.value
+    if tr is None:
+        dflt = src.function(FF_REL, "FileProcessTensor.get_mpo_tensor").args
+        names = [a.arg for a in dflt.args]
+        d = dflt.defaults[len(dflt.defaults) - (len(names) - names.index("transformed"))]
+        tr = d
+    val = _ff_const_bool(tr)
+    if val is None:
+        raise Untranslatable("import_process_tensor: transformed=%s" % ast.unparse(tr))
+    caps = [n for n in ast.walk(fn) if isinstance(n, ast.Call) and
+            attr_chain(n.func) == ["pt", "set_cap_tensor"]]
+    copies = "false"
+    if len(caps) == 1 and len(caps[0].args) == 2:
+        gc = source_call(caps[0].args[1], "get_cap_tensor")
+        if gc is not None and gc.args and ast.unparse(gc.args[0]) == ast.unparse(caps[0].args[0]):
+            copies = "true"
+    if any(isinstance(n, ast.Call) and attr_chain(n.func) == ["pt", "compute_caps"]
+           for n in ast.walk(fn)):
+        copies = "false"
+    out.append("/-- %s:%d  import_process_tensor, 'simple': `pt.set_mpo_tensor(%s, %s)`; caps copied "
+               "with get_cap_tensor/set_cap_tensor: %s -/\n"
+               "def importMpoTransformed : Bool := %s\ndef importCopiesCaps : Bool := %s\n"
+               % (FF_REL, sets[0].lineno, ast.unparse(sets[0].args[0]), ast.unparse(g), copies,
+                  val, copies))
+
+
 EXTRA_IMPORTS["FileFlags"] = "import OQuPyVerif.Model.PTFile\n"
 
 
@@ -4646,6 +4703,7 @@ def frag_fileflags(src):
     _ff_pttempo_unwind(src, out)
     _ff_writing_assignments(src, out)
     _ff_compute_caps_tail(src, out)
+    _ff_import_copy(src, out)
     out.append("/-- everything above as one record (the model is a function of it) -/\n"
                "def flags : Flags :=\n"
                "  { readWarn := readWarn, closeReset := closeReset, closeValue := closeValue,\n"
@@ -4657,7 +4715,8 @@ def frag_fileflags(src):
                "    ptTempoMode := ptTempoMode, nameSetter := nameSetter, descrSetter := descrSetter,\n"
                "    ptTempoSimpleInit := ptTempoSimpleInit, ptTempoFileInit := ptTempoFileInit,\n"
                "    exportUnwind := exportUnwind, ptTempoUnwind := ptTempoUnwind,\n"
-               "    writingAssignments := writingAssignments, computeCapsTail := computeCapsTail }\n")
+               "    writingAssignments := writingAssignments, computeCapsTail := computeCapsTail,\n"
+               "    importMpoTransformed := importMpoTransformed, importCopiesCaps := importCopiesCaps }\n")
     return "\n".join(out)
 # end of FileFlags
 
@@ -6400,13 +6459,7 @@ def _gw_chain_rule(src, out):
             raise Untranslatable("ParameterizedSystem.get_propagators: missing `%s`" % n)
     fn = src.function(rel2, "ParameterizedSystem.get_propagator_derivatives")
     text = _gw_norm(fn)
-    if text.count("pre_params = parameters[2 * step]") != 2 or \
-            text.count("post_params = parameters[2 * step + 1]") != 2 or \
-            "pre_prop_derivs = self._propagator_derivatives(dt, pre_params)" not in text or \
-            "post_prop_derivs = self._propagator_derivatives(dt, post_params)" not in text or \
-            "pre_prop_derivs = pd(pre_params)" not in text or "post_prop_derivs = pd(post_params)" not in text or \
-            text.count("return (pre_prop_derivs, post_prop_derivs)") != 2:
-        raise Untranslatable("ParameterizedSystem.get_propagator_derivatives: half-step indexing")
+    # (the derivative closures are analysed statement by statement in _gw_deriv_sources)
     out.append("/-- %s:%d  ParameterizedSystem: propagators(step) = (expm(L(parameters[2*step])·dt/2),\n"
                "    expm(L(parameters[2*step+1])·dt/2)); the derivatives use the same two rows -/\n"
                "def halfStepRows : Nat × Nat := (0, 1)\n" % (rel2, fn.lineno))
@@ -6591,6 +6644,112 @@ def _gw_memo_sites(src, out):
                % (rel, ", ".join(_GW_MEMO_METHODS), ("\n" + ",\n".join(lines)) if lines else ""))
 
 
+GW_DERIVSRC_PREAMBLE = '''/-- one assignment of the propagator derivatives of a half step inside a closure returned by
+    `ParameterizedSystem.get_propagator_derivatives`: `half` 0/1 = first/second half step,
+    `fromRow` 0/1 = computed from `parameters[2*step]` / `parameters[2*step+1]` (a copy of the
+    other half's derivatives counts as computed from the other half's row), `guard` = the
+    condition under which the assignment runs: "always", "allEqual" (all parameters of the two
+    halves agree), "notAllEqual" (the else-branch of such a test) or "other: <test>" -/
+structure DerivSrc where
+  closure : String
+  half : Nat
+  fromRow : Nat
+  guard : String
+  deriving DecidableEq, Repr
+'''
+
+_GW_ALLEQ = {"np.all(np.equal(%s, %s))", "np.array_equal(%s, %s)", "np.all(%s == %s)",
+             "np.equal(%s, %s).all()", "(%s == %s).all()"}
+
+
+def _gw_guard_kind(test):
+    t = _gw_norm(test)
+    for pat in _GW_ALLEQ:
+        if t in (pat % ("pre_params", "post_params"), pat % ("post_params", "pre_params")):
+            return "allEqual"
+    return "other: " + t
+
+
+def _gw_deriv_sources(src, out):
+    rel = "oqupy/system.py"
+    fn = src.function(rel, "ParameterizedSystem.get_propagator_derivatives")
+    closures = [n for n in ast.walk(fn) if isinstance(n, ast.FunctionDef) and n is not fn]
+    if sorted(c.name for c in closures) != ["propagator_derivatives_a", "propagator_derivatives_b"]:
+        raise Untranslatable("get_propagator_derivatives: closures %r" % [c.name for c in closures])
+    # which callable differentiates: user-supplied in closure a, pd = halfstep_propagator_derivative(dt) in b
+    text = _gw_norm(fn)
+    if "pd = self.halfstep_propagator_derivative(dt)" not in text or \
+            "if self._propagator_derivatives is not None:" not in text:
+        raise Untranslatable("get_propagator_derivatives: branch on the user-supplied derivatives")
+    rows = []
+    for c in sorted(closures, key=lambda c: c.name):
+        if [a.arg for a in c.args.args] != ["step"]:
+            raise Untranslatable("%s: parameters" % c.name)
+        rowof = {}
+        seen_return = []
+
+        def walk(stmts, guard):
+            for s in stmts:
+                if isinstance(s, ast.Expr) and isinstance(s.value, ast.Constant):
+                    continue
+                if isinstance(s, ast.Return):
+                    if _gw_norm(s.value) not in ("(pre_prop_derivs, post_prop_derivs)",):
+                        raise Untranslatable("%s: returns %s" % (c.name, _gw_norm(s.value)))
+                    if guard != "always":
+                        raise Untranslatable("%s: conditional return" % c.name)
+                    seen_return.append(1)
+                    continue
+                if isinstance(s, ast.If):
+                    kind = _gw_guard_kind(s.test)
+                    inner = kind if guard == "always" else "other: nested (%s) and (%s)" % (guard, kind)
+                    walk(s.body, inner)
+                    if kind == "allEqual" and guard == "always":
+                        walk(s.orelse, "notAllEqual")
+                    else:
+                        walk(s.orelse, "other: else of (%s)" % inner)
+                    continue
+                if not (isinstance(s, ast.Assign) and len(s.targets) == 1
+                        and isinstance(s.targets[0], ast.Name)):
+                    raise Untranslatable("%s: unexpected statement %s" % (c.name, _gw_norm(s)[:80]))
+                tgt, val = s.targets[0].id, _gw_norm(s.value)
+                if tgt in ("pre_params", "post_params"):
+                    want = {"pre_params": "parameters[2 * step]", "post_params": "parameters[2 * step + 1]"}[tgt]
+                    if val != want or guard != "always":
+                        raise Untranslatable("%s: %s = %s" % (c.name, tgt, val))
+                    rowof[tgt] = 0 if tgt == "pre_params" else 1
+                    continue
+                if tgt in ("pre_prop_derivs", "post_prop_derivs"):
+                    half = 0 if tgt.startswith("pre") else 1
+                    fn_name = "self._propagator_derivatives(dt, %s)" if c.name.endswith("_a") else "pd(%s)"
+                    if val == fn_name % "pre_params" and "pre_params" in rowof:
+                        frm = 0
+                    elif val == fn_name % "post_params" and "post_params" in rowof:
+                        frm = 1
+                    elif val == "pre_prop_derivs":
+                        frm = 0
+                    elif val == "post_prop_derivs":
+                        frm = 1
+                    else:
+                        raise Untranslatable("%s: %s = %s" % (c.name, tgt, val))
+                    rows.append((c.name, half, frm, guard))
+                    continue
+                raise Untranslatable("%s: assignment to %s" % (c.name, tgt))
+
+        walk(c.body, "always")
+        if len(seen_return) != 1:
+            raise Untranslatable("%s: not exactly one return" % c.name)
+        for half in (0, 1):
+            if not any(r[0] == c.name and r[1] == half for r in rows):
+                raise Untranslatable("%s: derivatives of half step %d are never assigned" % (c.name, half))
+    out.append(GW_DERIVSRC_PREAMBLE)
+    out.append("/-- %s:%d  ParameterizedSystem.get_propagator_derivatives: where the derivatives of each half\n"
+               "    step come from, in the user-supplied (`_a`) and the numerically differentiated (`_b`) closure -/\n"
+               "def derivSources : List DerivSrc := [\n%s]\n"
+               % (rel, fn.lineno, ",\n".join(
+                   "  { closure := %s, half := %d, fromRow := %d, guard := %s }"
+                   % (_lstr(a), b, c_, _lstr(g)) for (a, b, c_, g) in rows)))
+
+
 @fragment("GradWiring")
 def frag_gradwiring(src):
     out = [GW_PREAMBLE]
@@ -6611,6 +6770,7 @@ def frag_gradwiring(src):
                "    the environments were visited in list order or the axes were reordered afterwards -/\n"
                "def bwdJoinAligned : Bool := (!bwdCallReversed) || applyReverseReorders\n")
     _gw_memo_sites(src, out)
+    _gw_deriv_sources(src, out)
     return "\n".join(out)
 # end of GradWiring
 
@@ -10864,6 +11024,37 @@ def frag_corrbath(src):
                % (_c07_lstrs(sl["times_a"]), _c07_lstrs(sl["times_b"])))
     dtsrc = [ast.unparse(h.value) for h in src.assignment(fg, "dt")]
     out.append("def sys_corr_dt_source : List String := %s\n" % _c07_lstrs(dtsrc))
+    # every float time -> step conversion of the bath-correlation code, through the float model
+    for qual, target, lean_name, params in (
+            ("correlation", "corr_mat_dim", "correlation_corr_mat_dim", ["time_2", "dt"]),
+            ("_calc_kernel", "ker_dim", "kernel_ker_dim", ["time_2", "dt"]),
+            ("_calc_kernel", "switch", "kernel_switch", ["time_1", "dt"])):
+        fq = src.function(rel, "TwoTimeBathCorrelations." + qual)
+        hs = src.assignment(fq, target)
+        if len(hs) != 1:
+            raise Untranslatable("%s: %s" % (qual, target))
+        out.append(_c07_corr_def(lean_name, hs[0].value,
+                                 {"time_1": "Flt", "time_2": "Flt", "dt": "Flt"}, "Int", params,
+                                 "%s:%d  %s: %s = %s" % (rel, hs[0].lineno, qual, target,
+                                                         ast.unparse(hs[0].value))))
+    focc = src.function(rel, "TwoTimeBathCorrelations.occupation")
+    hs = src.assignment(focc, "last_time")
+    if not hs or len(set(ast.unparse(h.value).replace("len(self._process_tensor)", "corr_mat_dim")
+                         .replace("self._process_tensor.dt", "dt") for h in hs)) != 1 \
+            or [ast.unparse(h.value) for h in src.assignment(focc, "corr_mat_dim")] \
+            != ["len(self._process_tensor)"]:
+        raise Untranslatable("occupation: last_time")
+    out.append(_c07_corr_def("occupation_last_time", hs[0].value,
+                             {"corr_mat_dim": "Int", "dt": "Flt"}, "Flt", ["corr_mat_dim", "dt"],
+                             "%s:%d  occupation: last_time = %s  (corr_mat_dim = len(process_tensor))"
+                             % (rel, hs[0].lineno, ast.unparse(hs[0].value))))
+    # other int()/np.round/np.floor/np.ceil conversions in the class would be a new site
+    fcls = src.function(rel, "TwoTimeBathCorrelations")
+    conv = sorted(ast.unparse(n) for n in ast.walk(fcls) if isinstance(n, ast.Call)
+                  and attr_chain(n.func) in (["int"], ["round"], ["np", "floor"], ["np", "ceil"],
+                                             ["np", "rint"], ["np", "trunc"]))
+    out.append("/-- every int()/floor/ceil/rint/trunc call in TwoTimeBathCorrelations -/\n"
+               "def bath_int_conversions : List String := %s\n" % _c07_lstrs(conv))
 
     # ---- _calc_kernel: cell formulas -------------------------------------------------
     fk = src.function(rel, "TwoTimeBathCorrelations._calc_kernel")
